@@ -290,6 +290,119 @@ fn zero_cases(out: &mut Vec<Case>) {
     });
 }
 
+/// Unusual magnitudes of the tree itself: depth, name and path length, fan-out, names that look like
+/// the archive's own files, the smallest trees, time edges.
+fn shape_edge_cases(out: &mut Vec<Case>) {
+    out.push(Case {
+        tag: "edges: 40 levels deep, 255-byte names, a path of several thousand bytes".into(),
+        opts: BOpts::new(7, 1 << 20, 1 << 20),
+        sweep: "large",
+        tree: Box::new(|| {
+            let mut t = empty_tree();
+            let mut p = String::new();
+            for i in 0..40 {
+                if !p.is_empty() {
+                    p.push('/');
+                }
+                p.push_str(&format!("d{i:02}"));
+                t.insert(p.clone(), Node::dir(T0 + 100 + i));
+            }
+            t.insert(format!("{p}/leaf"), Node::file(b"at the bottom", T0 + 150));
+            let long = "n".repeat(255);
+            let longu = "é".repeat(127); // 254 bytes
+            let mut q = String::new();
+            for i in 0..12 {
+                if !q.is_empty() {
+                    q.push('/');
+                }
+                q.push_str(if i % 2 == 0 { &long } else { &longu });
+                t.insert(q.clone(), Node::dir(T0 + 160 + i));
+            }
+            t.insert(format!("{q}/{long}"), Node::file(b"long path", T0 + 180));
+            t.insert(format!("{q}/l"), Node::symlink(&long, T0 + 181));
+            t
+        }),
+    });
+    for hunk in [7usize, 1000] {
+        out.push(Case {
+            tag: format!("edges: 700 entries in one directory, hunk={hunk}"),
+            opts: BOpts::new(hunk, 64, 16),
+            sweep: "large",
+            tree: Box::new(|| {
+                let mut t = empty_tree();
+                t.insert("wide".into(), Node::dir(T0 + 200));
+                for i in 0..700u32 {
+                    let name = format!("wide/e{:03}{}", (i * 7) % 700, if i % 3 == 0 { ".d" } else { "" });
+                    let node = match i % 3 {
+                        0 => Node::dir(T0 + 201),
+                        1 => Node::file(format!("file {i}").as_bytes(), T0 + 202),
+                        _ => Node::symlink("e000.d", T0 + 203),
+                    };
+                    t.insert(name, node);
+                }
+                t
+            }),
+        });
+    }
+    out.push(Case {
+        tag: "edges: names that look like the archive's own files".into(),
+        opts: BOpts::new(2, 8, 3),
+        sweep: "large",
+        tree: Box::new(|| {
+            let mut t = empty_tree();
+            for (i, n) in ["BANDHEAD", "BANDTAIL", "CONSERVE", "GC_LOCK", "b0000", "d", "i"].iter().enumerate() {
+                if i % 2 == 0 {
+                    t.insert(n.to_string(), Node::file(n.as_bytes(), T0 + 210 + i as i64));
+                } else {
+                    t.insert(n.to_string(), Node::dir(T0 + 210 + i as i64));
+                    t.insert(format!("{n}/BANDHEAD"), Node::file(b"{}", T0 + 220));
+                    t.insert(format!("{n}/00000"), Node::dir(T0 + 221));
+                    t.insert(format!("{n}/00000/000000000"), Node::file(b"not a hunk", T0 + 222));
+                }
+            }
+            t
+        }),
+    });
+    for (k, name) in ["only the root", "one empty file", "one one-byte file", "one empty directory"].iter().enumerate() {
+        for opts in [BOpts::defaults(), BOpts::new(1, 1, 0)] {
+            out.push(Case {
+                tag: format!("edges: {name}, {}", opts.describe()),
+                opts,
+                sweep: "large",
+                tree: Box::new(move || {
+                    let mut t = empty_tree();
+                    match k {
+                        1 => {
+                            t.insert("e".into(), Node::file(b"", T0 + 230));
+                        }
+                        2 => {
+                            t.insert("e".into(), Node::file(b"x", T0 + 231));
+                        }
+                        3 => {
+                            t.insert("e".into(), Node::dir(T0 + 232));
+                        }
+                        _ => {}
+                    }
+                    t
+                }),
+            });
+        }
+    }
+    out.push(Case {
+        tag: "edges: times around 2^32 seconds, far in the future, nanoseconds 999999999".into(),
+        opts: BOpts::defaults(),
+        sweep: "large",
+        tree: Box::new(|| {
+            let mut t = empty_tree();
+            for (i, (sec, ns)) in [(4_294_967_295i64, 999_999_999u32), (4_294_967_296, 0), (4_294_967_296, 1), (32_503_680_000, 5), (-2_147_483_649, 999_999_999), (-62_135_596_800, 0)].iter().enumerate() {
+                t.insert(format!("t{i}"), Node::file(format!("{sec}").as_bytes(), T0).with_mtime(*sec, *ns));
+                t.insert(format!("td{i}"), Node::dir(T0).with_mtime(*sec, *ns));
+            }
+            t
+        }),
+    });
+}
+
 /// More distinct blocks than the block cache holds (100) and than the listing fans out at once
 /// (30 sub-directories): 150 one-block files, then 150 files with the same contents again, so that
 /// every block is read a second time after it has been evicted.
@@ -341,6 +454,7 @@ pub fn cases(thorough: bool) -> Vec<Case> {
     large_cases(&mut v);
     many_blocks_case(&mut v);
     zero_cases(&mut v);
+    shape_edge_cases(&mut v);
     structure_cases(if thorough { 4 } else { 3 }, &mut v);
     layout_cases(if thorough { 3 } else { 2 }, &mut v);
     if thorough {
